@@ -2,7 +2,9 @@
 
 Integer key arithmetic of `VoxelKey.child` / `childs` / `bounds`, the interval test of `Bounds.overlaps`, and a
 structural summary of `load_octree_for_query` (stack discipline, the merge rule of a loaded page, the error raised
-when the loaded page does not describe the node) and of the integer box filter of `CopcReader.query`.
+when the loaded page does not describe the node), of the integer box filter of `CopcReader.query`, of the order in which
+the fetch strategies put the fetched ranges into the buffer, and of `Bounds.ensure_3d` (a new object, the caller's is not
+written to).
 Fail closed: a shape that is not recognised omits the definition, so Model/Copc.v stops compiling."""
 import ast
 
@@ -241,6 +243,68 @@ def gen_copc(repo):
                 raise Untranslatable(f"_fetch_all_chunks: `{frag}` not found")
         return "Definition gen_groups_contiguous : bool := true.\n"
     o.add("gen_grouping", grouping)
+
+    # ---- how the fetched ranges get into the buffer: in byte_queries order, or (http queue) in offset order ----------
+    def strategies():
+        cls = find_class(mod, "CopcReader")
+        g = _norm(find_func(cls, "_fetch_all_chunks"))
+        for frag in ["forgroupingrouped_nodes:", "fornodeingroup:chunk_table.append(",
+                     "citer=ChunkIter(compressed_bytes)foroffset,sizeinbyte_queries:self.source.seek(offset)cc=citer.next(size)self.source.readinto(cc)",
+                     "citer=ChunkIter(compressed_bytes)foroffset,sizeinbyte_queries:self.source.seek(offset)cc=citer.next(size)cc[:]=self.source.read(size)",
+                     "http_queue_strategy(self.source,byte_queries,compressed_bytes,self.http_num_threads)",
+                     "http_thread_executor_strategy(self.source,byte_queries,compressed_bytes,self.http_num_threads)"]:
+            if frag not in g:
+                raise Untranslatable(f"_fetch_all_chunks: `{frag}` not found")
+        q = _norm(find_func(mod, "http_queue_strategy"))
+        for frag in ["forqueryinbyte_queries:query_queue.put(query)", "results.append(result)",
+                     "citer=ChunkIter(out_compressed_bytes)forgroup_bytes,_inresults:cc=citer.next(len(group_bytes))cc[:]=group_bytes"]:
+            if frag not in q:
+                raise Untranslatable(f"http_queue_strategy: `{frag}` not found")
+        if q.count("results.sort(") + q.count("sorted(") > 1:
+            raise Untranslatable("http_queue_strategy: more than one sort")
+        by_offset = "results.sort(key=lambdax:x[1])" in q and "self.result_queue.put((data,offset))" in _norm(find_class(mod, "HttpFetcherThread"))
+        if not by_offset and ("sort" in q):
+            raise Untranslatable("http_queue_strategy: results sorted by something else than the offset")
+        e = _norm(find_func(mod, "http_thread_executor_strategy"))
+        for frag in ["foroffset,sizeinbyte_queries:jobs.append(downloader_pool.submit(fetch_data_job,HttpRangeStream(source.url),offset,size,))",
+                     "citer=ChunkIter(out_compressed_bytes)forfutureinjobs:group_bytes=future.result()cc=citer.next(len(group_bytes))cc[:]=group_bytes"]:
+            if frag not in e and frag.replace(",))", "))") not in e:
+                raise Untranslatable(f"http_thread_executor_strategy: `{frag}` not found")
+        return f"Definition gen_queue_sorts_by_offset : bool := {'true' if by_offset else 'false'}.\n"
+    o.add("gen_strategies", strategies)
+
+    # ---- Bounds.ensure_3d: a new Bounds is built, nothing of self is assigned -------------------------------------
+    def ensure3d():
+        cls = find_class(mod, "Bounds")
+        f = find_func(cls, "ensure_3d")
+        pn = [a.arg for a in f.args.args]
+        if pn != ["self", "mins", "maxs"]:
+            raise Untranslatable(f"ensure_3d parameters {pn}")
+        body = [s for s in f.body if not (isinstance(s, ast.Expr) and isinstance(s.value, ast.Constant))]
+        got = [_norm(s) for s in body]
+        want = ["new_mins=np.zeros(3,dtype=np.float64)", "new_maxs=np.zeros(3,dtype=np.float64)",
+                "new_mins[:len(self.mins)]=self.mins[:]", "new_mins[len(self.mins):]=mins[len(self.mins):]",
+                "new_maxs[:len(self.maxs)]=self.maxs[:]", "new_maxs[len(self.maxs):]=maxs[len(self.maxs):]",
+                "returnBounds(new_mins,new_maxs)"]
+        if got == want:
+            return "Definition gen_ensure3d_fresh : bool := true.\n"
+        # the caller's object is written to, or handed back as the query's box
+        for n in ast.walk(f):
+            targets = []
+            if isinstance(n, ast.Assign):
+                targets = n.targets
+            elif isinstance(n, (ast.AugAssign, ast.AnnAssign)):
+                targets = [n.target]
+            for t in targets:
+                base = t
+                while isinstance(base, (ast.Attribute, ast.Subscript)):
+                    base = base.value
+                if isinstance(base, ast.Name) and base.id == "self":
+                    return "Definition gen_ensure3d_fresh : bool := false.\n"
+            if isinstance(n, ast.Return) and isinstance(n.value, ast.Name) and n.value.id == "self":
+                return "Definition gen_ensure3d_fresh : bool := false.\n"
+        raise Untranslatable(f"ensure_3d: shape {got}")
+    o.add("gen_ensure3d", ensure3d)
     return o
 
 
